@@ -34,6 +34,7 @@ type Step struct {
 type Opts struct {
 	StepTimeout time.Duration // how long a released actor may take to reach its next gate
 	Backups     bool
+	BackupFail  bool // with Backups: the shard directory sits so deep that the backup file name exceeds PATH_MAX (the copy fails)
 }
 
 type replay struct {
@@ -342,6 +343,18 @@ func Replay(bno int, steps []Step, root string, tw *trace.Writer, opts Opts) (dr
 	dir := filepath.Join(root, fmt.Sprintf("b%d", bno))
 	os.RemoveAll(dir)
 	defer os.RemoveAll(dir)
+	if opts.Backups && opts.BackupFail {
+		// the shard file path ends up 4085
+		// characters long (fine), the backup name is 18 characters longer (ENAMETOOLONG)
+		want := 4085 - (len(filepath.Join("x", cluster.USERCOLSDIR, "u", "c", shardID, "sharddb.bbolt")) - 1)
+		for len(dir) < want-201 {
+			dir = filepath.Join(dir, strings.Repeat("p", 200))
+		}
+		if pad := want - len(dir) - 1; pad > 0 {
+			dir = filepath.Join(dir, strings.Repeat("q", pad))
+		}
+		defer os.RemoveAll(filepath.Join(root, fmt.Sprintf("b%d", bno)))
+	}
 	rp := &replay{root: dir, tw: tw, sched: gate.New(), opts: opts, lsIdx: map[any]int{}, timers: map[int]*time.Timer{}, lsOf: map[string]int{}}
 	rp.sm = cluster.NewShardManager(cluster.ShardManagerConfig{RootDir: dir, ShardTimeout: 3600, MaxCacheSize: -1})
 	rp.col = models.Collection{UserId: "u", Id: "c", Replicas: 1, IndexSchema: models.IndexSchema{},
